@@ -102,7 +102,9 @@ def model_check(name, module, cfg, workdir, workers=NCPU, timeout=900, heap='8g'
         return dict(name=name, states=r['distinct'], transitions=r['generated'], depth=r['depth'],
                     wall=round(r['wall'], 1), negative_control=True)
     if not tlc_ok(r):
-        raise MachineryError(f'model check {name} failed:\n{r["out"][-6000:]}')
+        o = r['out']
+        k0 = max(o.find('Error:'), o.find('*** Errors'))
+        raise MachineryError(f'model check {name} failed:\n{o[k0:k0 + 3000] if k0 >= 0 else o[-3000:]}')
     return dict(name=name, states=r['distinct'], transitions=r['generated'], depth=r['depth'],
                 wall=round(r['wall'], 1), out=r['out'])
 
@@ -127,7 +129,7 @@ def printed_json(out):
 TRACE_CFG = 'INIT TInit\nNEXT TNext\nINVARIANT KitDone\nPOSTCONDITION KitPost\nCHECK_DEADLOCK FALSE\n'
 
 
-def _validate_shard(trace_module, recs, workdir, k, timeout, cfg):
+def _validate_shard(trace_module, recs, workdir, k, timeout, cfg, env=None):
     tf = os.path.join(workdir, f'shard{k}.ndjson')
     of = os.path.join(workdir, f'verdict{k}.ndjson')
     with open(tf, 'w') as f:
@@ -136,7 +138,7 @@ def _validate_shard(trace_module, recs, workdir, k, timeout, cfg):
     if os.path.exists(of):
         os.remove(of)
     r = tlc(os.path.join(SPEC, 'trace', trace_module), cfg, os.path.join(workdir, f'v{k}'),
-            env={'TRACE_FILE': tf, 'OUT_FILE': of}, workers=1, timeout=timeout, heap='3g')
+            env=dict(env or {}, TRACE_FILE=tf, OUT_FILE=of), workers=1, timeout=timeout, heap='3g')
     if not tlc_ok(r) or not os.path.exists(of):
         o = r['out']
         k0 = o.find('Error:')
@@ -150,7 +152,7 @@ def _validate_shard(trace_module, recs, workdir, k, timeout, cfg):
     return [(b['i'], list(b['failed'])) for b in v['bad']], r['distinct'], r['generated']
 
 
-def validate(trace_module, records, workdir, shards=NCPU, timeout=900, cfg=TRACE_CFG, contiguous=False):
+def validate(trace_module, records, workdir, shards=NCPU, timeout=900, cfg=TRACE_CFG, contiguous=False, env=None):
     """Validate records with TLC. Returns (bad: dict i -> failed clauses, states, transitions).
 
     contiguous=True keeps the record order inside shards (state-machine traces are sharded by the
@@ -168,7 +170,7 @@ def validate(trace_module, records, workdir, shards=NCPU, timeout=900, cfg=TRACE
         parts = [p for p in parts if p]
     bad, st, tr = {}, 0, 0
     with ThreadPoolExecutor(max_workers=NCPU) as ex:
-        futs = [ex.submit(_validate_shard, trace_module, p, workdir, k, timeout, cfg) for k, p in enumerate(parts)]
+        futs = [ex.submit(_validate_shard, trace_module, p, workdir, k, timeout, cfg, env) for k, p in enumerate(parts)]
         for f in futs:
             b, s, t = f.result()
             st += s
